@@ -33,6 +33,12 @@ pub struct ACfg {
     /// how the store is constructed (see StoreCfg::ctor); only with the default capacity and policy
     pub ctor: u8,
     pub default_name: bool,
+    /// stop() is called while the reducer is parked with a backlog and the gate opens only after stop()
+    /// has run into its timeout; the scenario then waits for the reducer loop to end on its own
+    pub stop_timeout: bool,
+    /// a direct subscriber panics inside on_notify of the k-th action while readers sample get_state();
+    /// only C08 is judged (the reducer context does not survive the panic in the unmodified code)
+    pub sub_panic: bool,
 }
 
 pub fn gen(rng: &mut Rng, tiny: bool, focus: &str) -> ACfg {
@@ -149,6 +155,9 @@ pub fn gen(rng: &mut Rng, tiny: bool, focus: &str) -> ACfg {
         let idx = scripts.len() as u32 - 1;
         producers[0][0].0.script = idx;
     }
+    let default_name = rng.chance(1, 2);
+    let stop_timeout = policy == POL_BLOCK && (rng.chance(1, if tiny { 8 } else { 300 }) || std::env::var("RSV_FORCE").as_deref() == Ok("stop_timeout"));
+    let sub_panic = !stop_timeout && focus == "C08" && rng.chance(1, if tiny { 6 } else { 25 });
     ACfg {
         policy,
         cap,
@@ -166,7 +175,9 @@ pub fn gen(rng: &mut Rng, tiny: bool, focus: &str) -> ACfg {
         sampler: focus == "C18" || rng.chance(1, 4),
         mid_phase,
         ctor: if cap == 16 && policy == POL_BLOCK { rng.below(3) as u8 } else { 0 },
-        default_name: rng.chance(1, 2),
+        default_name,
+        stop_timeout,
+        sub_panic,
     }
 }
 
@@ -185,12 +196,134 @@ pub fn describe(c: &ACfg) -> J {
         ("runtime_registrations", J::A(c.runtime_reg.iter().map(|(p, k, kind)| J::s(format!("producer {} before action {}: {}", p + 1, k + 1, ["add_reducer", "add_middleware", "add_subscriber"][*kind as usize]))).collect())),
         ("perturb", J::U(c.perturb as u64)),
         ("read_in_callbacks", J::B(c.read_in_cb)),
+        ("stop_runs_into_its_timeout", J::B(c.stop_timeout)),
+        ("subscriber_panics_inside_on_notify", J::B(c.sub_panic)),
         ("mid_phase_variant", J::s(["none", "registrations while reducer 0 is parked inside a chain", "unsubscribe + subscribe while the first subscriber is parked inside a notification", "add_middleware while middleware 0 is parked inside before_effect"][c.mid_phase as usize])),
     ])
 }
 
+/// stop() with a parked reducer and a backlog: stop() gives up after its timeout, the gate opens, the
+/// reducer loop works the backlog off and releases the subscribers; only then is the history judged.
+fn execute_timeout(c: &ACfg, seed: u64) -> (W, bool) {
+    let mut gated = Script::plain();
+    gated.rgate = 0;
+    let mut keep = Script::plain();
+    keep.keep = 0xff;
+    let ctx = Ctx::new(ScriptSrc::Table(vec![gated, Script::plain(), keep]), 1, seed, c.perturb, c.read_in_cb);
+    let w = W::new(ctx, vec![StoreCfg { policy: POL_BLOCK, cap: 16, n_red: c.n_red.max(1), n_mw: c.n_mw, name: "rsva".into(), ctor: 0 }]);
+    let released = Arc::new(Counter::new());
+    let r2 = released.clone();
+    let mut subs = vec![w.add_direct_sub(0, true, |s| s.unsub_counter = Some(r2))];
+    subs.push(w.add_direct(0, NOGATE, false, true, false));
+    if c.n_sub % 2 == 1 {
+        subs.push(w.add_channeled(0, 4, POL_BLOCK, NOGATE, false, true, false));
+    }
+    w.dispatch(0, EP_INHERENT, Act { id: act_id(0, 1, 1), script: 0 });
+    let n = 3 + (seed % 8) as u32;
+    for k in 0..n {
+        w.dispatch(0, [EP_INHERENT, EP_STORE_TRAIT, EP_DISPATCHER][k as usize % 3], Act { id: act_id(0, 1, k + 2), script: if mix(seed, k as u64) % 3 == 0 { 2 } else { 1 } });
+    }
+    let mut quiesced = w.ctx.gates[0].wait_parked(1);
+    w.stop(0, c.stop_how);
+    w.ctx.gates[0].open();
+    if released.wait_at_least(1, 30) {
+        // grace period: whatever (wrongly) still runs after the release gets the chance to show itself
+        let mut last = w.ctx.log.now();
+        for _ in 0..40 {
+            if cfg!(miri) {
+                for _ in 0..10 {
+                    std::thread::yield_now();
+                }
+            } else {
+                std::thread::sleep(std::time::Duration::from_micros(500));
+            }
+            let now = w.ctx.log.now();
+            if now == last {
+                break;
+            }
+            last = now;
+        }
+        w.mark(MARK_SETTLED, 0);
+    } else {
+        quiesced = false;
+    }
+    w.read(0);
+    w.read(0);
+    w.metrics(0);
+    drop(subs);
+    (w, quiesced)
+}
+
+/// A subscriber panics inside on_notify of action k. Whatever the store does about it, get_state() must
+/// not go back: a subscriber registered before the panicking one reads the state of action k inside its
+/// callback, readers and the client read afterwards.
+fn execute_sub_panic(c: &ACfg, seed: u64) -> (W, bool) {
+    let ctx = Ctx::new(ScriptSrc::Table(vec![Script::plain()]), 1, seed, c.perturb, true);
+    let w = W::new(ctx, vec![StoreCfg { policy: POL_BLOCK, cap: 16, n_red: c.n_red.max(1), n_mw: c.n_mw, name: "rsva".into(), ctor: 0 }]);
+    let seen = Arc::new(Counter::new());
+    let s2 = seen.clone();
+    let first = w.add_direct_sub(0, true, |sub| {
+        sub.read_wh = 1;
+        sub.counter = Some(s2);
+    });
+    let k = 1 + (seed % 4) as u32;
+    let panicker = w.add_direct_sub(0, true, |sub| {
+        sub.hook = Some(Arc::new(move |_c: &Arc<Ctx>, _st: &St, a: &Act| {
+            if id_seq(a.id) == k {
+                std::panic::panic_any(PANIC_MARK);
+            }
+        }));
+    });
+    let pid = panicker.0;
+    let stop_readers = AtomicBool::new(false);
+    let mut quiesced = true;
+    std::thread::scope(|sc| {
+        let (w, stop_readers) = (&w, &stop_readers);
+        let rh = std::thread::Builder::new().name("reader0".into()).spawn_scoped(sc, move || {
+            let cap = if cfg!(miri) { 8 } else { 4000 };
+            let mut n = 0;
+            while !stop_readers.load(Ordering::Relaxed) && n < cap {
+                w.read(0);
+                w.ctx.perturb();
+                n += 1;
+            }
+        }).unwrap();
+        for j in 0..k {
+            w.dispatch(0, EP_INHERENT, Act { id: act_id(0, 1, j + 1), script: 0 });
+        }
+        // the panicking subscriber has been entered for action k (the one before it has returned)
+        quiesced = seen.wait_at_least(k as u64, 20) && wait_until(|| count_where(w, |e| e.k == K::SBeg && e.idx == pid && id_seq(e.a) == k) >= 1);
+        w.read(0);
+        // a few more actions: never reduced if the reducer context is gone, reduced otherwise
+        for j in 0..(seed / 4 % 3) as u32 {
+            w.dispatch(0, EP_INHERENT, Act { id: act_id(0, 1, k + 1 + j), script: 0 });
+        }
+        if cfg!(miri) {
+            for _ in 0..30 {
+                std::thread::yield_now();
+            }
+        } else {
+            std::thread::sleep(std::time::Duration::from_micros(500));
+        }
+        w.read(0);
+        w.read(0);
+        stop_readers.store(true, Ordering::Relaxed);
+        rh.join().unwrap();
+        w.stop(0, STOP_STOP);
+        w.read(0);
+    });
+    drop((first, panicker));
+    (w, quiesced)
+}
+
 /// Build the world, run the clients, stop, return the world for the oracles.
 pub fn execute(c: &ACfg, seed: u64) -> (W, bool) {
+    if c.sub_panic {
+        return execute_sub_panic(c, seed);
+    }
+    if c.stop_timeout {
+        return execute_timeout(c, seed);
+    }
     let ctx = Ctx::new(ScriptSrc::Table(c.scripts.clone()), 1, seed, c.perturb, c.read_in_cb);
     let w = W::new(ctx, vec![StoreCfg { policy: c.policy, cap: c.cap, n_red: c.n_red, n_mw: c.n_mw, name: if c.ctor != 0 && c.default_name { "store".into() } else { "rsva".into() }, ctor: c.ctor }]);
     let mut subs = Vec::new();
@@ -351,6 +484,15 @@ pub fn count_kind(w: &W, k: K, idx: u32) -> u64 {
     n
 }
 
+pub fn count_where(w: &W, f: impl Fn(&Ev) -> bool) -> u64 {
+    let bufs = w.ctx.log.bufs.lock().unwrap();
+    let mut n = 0;
+    for (_, b) in bufs.iter() {
+        n += b.lock().unwrap().iter().filter(|e| f(e)).count() as u64;
+    }
+    n
+}
+
 /// poll a harness-side condition; false = gave up (inconclusive, never a violation)
 pub fn wait_until(mut f: impl FnMut() -> bool) -> bool {
     let t0 = std::time::Instant::now();
@@ -378,6 +520,10 @@ pub fn run(seed: u64, tiny: bool, focus: &str) -> Outcome {
     let mut v = Verdicts::default();
     if !quiesced {
         v.inconcl("*", "client thunks did not finish within the cap".into());
+    }
+    if c.sub_panic {
+        c08(&h, 0, &mut v);
+        return Outcome::new(describe(&c), h, v);
     }
     c01(&h, 0, &mut v);
     c02(&h, 0, &mut v);
